@@ -666,7 +666,9 @@ _c11 = {"UNITS": [], "VX_NO_REUSE": True}
 if not globals().get("VX_NO_REUSE"):
     exec(compile(open("/verif/specs/C11/spec.py").read(), "/verif/specs/C11/spec.py", "exec"), _c11)
 for _u in _c11["UNITS"]:
-    if _u.name.startswith("tss."):
+    # bulk.do_work_task (added after seeded change C10-9 was missed): the tasks bulk spawns carry the SCHEDULER's hint when it has one
+    # (with_hint(sched, {thread, h}) | bulk: every chunk task is sent to worker h), the queue's worker only when it has none
+    if _u.name.startswith("tss.") or _u.name == "bulk.do_work_task":
         _u.name = "c11." + _u.name
         _u.template = "../C11/" + _u.template
         UNITS.append(_u)
